@@ -112,5 +112,97 @@ func init() {
 		eh := ex.fn("plugin/executable/ecs_handler/handler.go", "ECSHandler", "Exec")
 		okEcs := eh != nil && contains(stmtStrings(ex, eh.Body), "if o.Option() == dns.EDNS0SUBNET { respOpt.Option = append(respOpt.Option, o) break }")
 		ex.setBool("c15OnlyEcsForwardsBack", okUsers && okEcs, true, "only entry_handler, ecs_handler and forward_edns0opt use RespOpt()/QOpt(); ecs_handler copies back the client-subnet option only")
+		// ecs_handler: Exec copies the upstream's client-subnet option back only `if forwarded`, and addECS reports
+		// `forwarded` only on the path that appended the CLIENT's own option to the query. Counted: results of addECS
+		// other than `false` outside that recognised path, assignments to the named result, bare returns (+1000 when the
+		// recognised path or Exec's `forwarded := e.addECS(qCtx)` ... `if forwarded {` is missing). 0 = the upstream's
+		// client-subnet option goes back only to a client whose own option was forwarded.
+		ae := ex.fn("plugin/executable/ecs_handler/handler.go", "ECSHandler", "addECS")
+		if ae != nil && eh != nil {
+			const ownPath = "if e.args.Forward { clientOpt := qCtx.ClientOpt() if clientOpt != nil { for _, o := range clientOpt.Option { if o.Option() == dns.EDNS0SUBNET { queryOpt.Option = append(queryOpt.Option, o) return true } } } }"
+			var own ast.Node
+			ast.Inspect(ae.Body, func(n ast.Node) bool {
+				if s, ok := n.(*ast.IfStmt); ok && own == nil && ex.str(s) == ownPath {
+					own = s
+				}
+				return true
+			})
+			loose := int64(0)
+			if own == nil {
+				loose += 1000
+			}
+			ast.Inspect(ae.Body, func(n ast.Node) bool {
+				switch s := n.(type) {
+				case *ast.FuncLit:
+					loose += 500
+				case *ast.ReturnStmt:
+					inOwn := own != nil && s.Pos() >= own.Pos() && s.End() <= own.End()
+					if len(s.Results) != 1 {
+						loose++
+					} else if r := ex.str(s.Results[0]); r != "false" && !(r == "true" && inOwn) {
+						loose++
+					}
+				case *ast.AssignStmt:
+					for _, l := range s.Lhs {
+						if id, ok := l.(*ast.Ident); ok && id.Name == "forwarded" {
+							loose++
+						}
+					}
+				}
+				return true
+			})
+			nDef, nUse := 0, 0
+			ast.Inspect(eh.Body, func(n ast.Node) bool {
+				switch s := n.(type) {
+				case *ast.AssignStmt:
+					for _, l := range s.Lhs {
+						if id, ok := l.(*ast.Ident); ok && id.Name == "forwarded" {
+							if ex.str(s) == "forwarded := e.addECS(qCtx)" {
+								nDef++
+							} else {
+								loose++
+							}
+						}
+					}
+				case *ast.IfStmt:
+					if strings.Contains(ex.str(s.Body), "respOpt.Option = append(respOpt.Option") {
+						if ex.str(s.Cond) == "forwarded" {
+							nUse++
+						}
+					}
+				}
+				return true
+			})
+			if nDef != 1 || nUse != 1 || strings.Count(ex.str(eh.Body), "respOpt.Option = append(respOpt.Option") != 1 {
+				loose += 1000
+			}
+			ex.setNat("c15EcsForwardedLoosePaths", loose, true, "ecs_handler: ways for the upstream's client-subnet option to be copied back without the client's own option having been forwarded (results of addECS other than false outside the `append(queryOpt.Option, o) return true` path over clientOpt.Option, writes to `forwarded`, a copy-back not under `if forwarded`); 0 = none")
+		} else {
+			ex.setNat("c15EcsForwardedLoosePaths", 0, false, "ecs_handler addECS / Exec not found")
+		}
+		// Context.CopyTo gives the copy a response OPT of its own (plugins write to RespOpt(); fallback, dual_selector and
+		// the lazy cache run sub-queries on copies and throw some of them away)
+		ct := ex.fn(crel, "Context", "CopyTo")
+		cp := ex.fn(crel, "Context", "Copy")
+		if ct != nil && cp != nil {
+			nAssign, deep := 0, false
+			ast.Inspect(ct.Body, func(n ast.Node) bool {
+				if s, ok := n.(*ast.AssignStmt); ok {
+					for _, l := range s.Lhs {
+						if ex.str(l) == "d.respOpt" {
+							nAssign++
+						}
+					}
+				}
+				if s, ok := n.(*ast.IfStmt); ok && ex.str(s) == "if ctx.respOpt != nil { d.respOpt = dns.Copy(ctx.respOpt).(*dns.OPT) }" {
+					deep = true
+				}
+				return true
+			})
+			okCopy := ex.str(cp.Body) == "{ newCtx := new(Context) ctx.CopyTo(newCtx) return newCtx }" && !strings.Contains(ex.str(ct.Body), "*d = *ctx")
+			ex.setBool("c15CopyToRespOptDeep", deep && nAssign == 1 && okCopy, true, "Context.CopyTo: the only write to d.respOpt is `d.respOpt = dns.Copy(ctx.respOpt).(*dns.OPT)` (a copy of its own); Copy() is new(Context) + CopyTo")
+		} else {
+			ex.setBool("c15CopyToRespOptDeep", false, false, "Context.CopyTo / Copy not found")
+		}
 	})
 }
